@@ -365,11 +365,15 @@ func (r Float64) Mnorm(a ConstMatrix) Scalar {
     return nil
   }
   t := NewScalar(r.Type(), 0.0)
-  v := a.AsConstVector()
-  r.Pow(v.ConstAt(0), ConstFloat64(2.0))
-  for i := 1; i < v.Dim(); i++ {
-    t.Pow(v.ConstAt(i), ConstFloat64(2.0))
-    r.Add(r, t)
+  for i := 0; i < n; i++ {
+    for j := 0; j < m; j++ {
+      if i == 0 && j == 0 {
+        r.Pow(a.ConstAt(i, j), ConstFloat64(2.0))
+      } else {
+        t.Pow(a.ConstAt(i, j), ConstFloat64(2.0))
+        r.Add(r, t)
+      }
+    }
   }
   return r
 }
